@@ -18,6 +18,7 @@ mvars == <<l, m>>
 
 NoX == [s |-> "", kind |-> "", reqs |-> {}, rids |-> {}, from |-> -1, leid |-> "", stream |-> "?", status |-> 0, sse |-> FALSE,
         n |-> 0, cut |-> FALSE, ended |-> FALSE, mayConflict |-> FALSE, known |-> FALSE,
+        tags |-> {},          \* tags of the messages received so far
         purged |-> FALSE]     \* the store reported that the requested events were purged (its contract, see C20)
 
 M0 == [store |-> FALSE, json |-> FALSE, stateless |-> FALSE,
@@ -29,6 +30,7 @@ M0 == [store |-> FALSE, json |-> FALSE, stateless |-> FALSE,
        ownid |-> <<>>,     \* <<session, stream>> -> their JSON-RPC ids
        ids   |-> <<>>,     \* <<session, stream, idx>> -> tag first delivered under that event id
        rets  |-> {},       \* <<session, request>> whose handler has returned its result
+       aband |-> {},       \* abandoned nested calls whose cancellation notice is due: <<session, request, tag, exchange>>
        cleanup |-> FALSE]
 
 Get(f, k, d) == IF k \in DOMAIN f THEN f[k] ELSE d
@@ -83,9 +85,9 @@ OnEv(e) ==
       lg == Log(xr.s, xr.stream)
       pos == xr.from + j + 1                      \* 1-based position in the store log
       idk == <<xr.s, e.stream, e.idx>>
-      msg == e.kind \in {"resp", "notif", "sreq", "bcast"}
+      msg == e.kind \in {"resp", "notif", "sreq", "bcast", "cancel"}
   IN
-  /\ m' = [m EXCEPT !.xs = Put(m.xs, e.x, [xr EXCEPT !.n = j]),
+  /\ m' = [m EXCEPT !.xs = Put(m.xs, e.x, [xr EXCEPT !.n = j, !.tags = @ \cup {e.tag}]),
                     !.ids = IF e.idx >= 0 /\ idk \notin DOMAIN m.ids THEN Put(m.ids, idk, TagOf(e)) ELSE @]
   /\ Check(l, "X.Known", xr.known)
   \* ---- C08
@@ -105,6 +107,10 @@ OnEv(e) ==
              THEN Check(l, "C10.NestedOnStandalone", Standalone(xr) \/ (e.os = xr.s /\ e.or \in ReqsOf(xr)))
              ELSE IF e.kind = "resp"
              THEN Check(l, "C10.ResponseOnOwnExchange", e.os = xr.s /\ e.or \in ReqsOf(xr))
+             \* the notice that a nested server->client call was abandoned is a message of the request whose
+             \* handler made the call
+             ELSE IF e.kind = "cancel" /\ ~m.json
+             THEN Check(l, "C10.CancelNoticeOnRequestStream", e.os = xr.s /\ e.or \in ReqsOf(xr))
              ELSE IF e.or = "sa" \/ m.json
                   THEN Check(l, "C10.NestedOnStandalone", e.os = xr.s /\ Standalone(xr))
                   ELSE Check(l, "C10.NestedOnRequestStream", e.os = xr.s /\ e.or \in ReqsOf(xr))
@@ -128,6 +134,30 @@ OnEmitEnd(e) ==
   /\ m' = m
   /\ IF m.store /\ ~m.stateless /\ e.s \notin m.dead /\ ~m.cleanup
      THEN Check(l, "C08.WriteRecorded", e.err = "" /\ Recorded(e.s, e.tag))
+     ELSE TRUE
+
+\* A handler abandons a nested call.  The exchange on which the notice is due: the one attached to the
+\* request's stream (the standalone stream in JSON mode), if any.
+Attached(s, r) == {n \in DOMAIN m.xs : LET xr == m.xs[n] IN
+                      xr.s = s /\ ~xr.ended /\ ~xr.cut /\ xr.kind \in {"call", "get"}
+                      /\ (IF m.json THEN Standalone(xr) ELSE r \in ReqsOf(xr))}
+OnAbandon(e) ==
+  m' = [m EXCEPT !.aband = @ \cup {<<e.s, e.r, e.tag, IF Attached(e.s, e.r) = {} THEN "" ELSE CHOOSE n \in Attached(e.s, e.r) : TRUE>>}]
+\* the stream of request r in the store's terms
+StreamsOf(s, r) == {k \in DOMAIN m.own : k[1] = s /\ r \in m.own[k]}
+\* once the SDK is at rest after the step (and nothing is held inside a stream lock), the notice has travelled
+\* on the request's stream: received by the exchange attached to it, and part of its history
+OnStep(e) ==
+  /\ m' = [m EXCEPT !.aband = IF e.held = 0 THEN {} ELSE @]
+  /\ IF e.held = 0 /\ ~m.cleanup /\ ~m.stateless
+     THEN \A p \in m.aband :
+            IF p[1] \in m.dead THEN TRUE
+            ELSE /\ (p[4] # "" /\ ~X(p[4]).cut /\ ~X(p[4]).ended) =>
+                      Check(l, "C10.CancelNoticeOnRequestStream", p[3] \in X(p[4]).tags)
+                 /\ m.store =>
+                      Check(l, "C10.CancelNoticeOnRequestStream",
+                            IF m.json THEN \E i \in DOMAIN Log(p[1], "") : Log(p[1], "")[i] = p[3]
+                            ELSE \E k \in StreamsOf(p[1], p[2]) : \E i \in DOMAIN m.st[k] : m.st[k][i] = p[3])
      ELSE TRUE
 
 \* the handler of a request runs in the session the request was posted to
@@ -163,6 +193,8 @@ Step(e) ==
     [] e.ev = "x.end"    -> IF X(e.x).known THEN OnEnd(e) ELSE m' = m
     [] e.ev = "h.emit.end" -> OnEmitEnd(e)
     [] e.ev = "h.start"  -> OnHStart(e)
+    [] e.ev = "h.abandon" -> OnAbandon(e)
+    [] e.ev = "step"     -> OnStep(e)
     [] e.ev = "h.end"    -> m' = [m EXCEPT !.rets = IF e.how = "ret" THEN @ \cup {<<e.s, e.r>>} ELSE @]
     [] e.ev = "quiesce"  -> OnQuiesce(e)
     [] e.ev = "st.after" -> m' = IF e.err /\ e.x \in DOMAIN m.xs THEN [m EXCEPT !.xs = Put(m.xs, e.x, [X(e.x) EXCEPT !.purged = TRUE])] ELSE m
